@@ -52,9 +52,16 @@ def nargs(B, o):
             2 if (ext(B, o) in TWO_ULEB or ext(B, o) in ULEB_SLEB or ext(B, o) in ULEB_BLOCK) else 1)
 
 
-def arg0(B, o, W, S):
+def set_loc_arg(B, o, W, E, A):
+    """operand of DW_CFA_set_loc at o: a target address; in the FDEs of .eh_frame (E = the FDE pointer encoding of the CIE,
+    A = section address) a pointer in that encoding, relative to the operand's own address under the pcrel modifier"""
+    return (taddr(B, o + 1, W) if E is None else
+            pe_val(B, o + 1, E % 16, W) + ((A + o + 1) if E // 16 == 1 else 0))
+
+
+def arg0(B, o, W, S, E=None, A=0):
     return (low6(B, o) if primary(B, o) != 0 else
-            taddr(B, o + 1, W) if ext(B, o) == 0x01 else
+            set_loc_arg(B, o, W, E, A) if ext(B, o) == 0x01 else
             op8(B, o + 1) if ext(B, o) == 0x02 else
             u16(B, o + 1) if ext(B, o) == 0x03 else
             u32(B, o + 1) if ext(B, o) == 0x04 else
@@ -70,10 +77,10 @@ def arg1(B, o, W, S):
             form_val(B, UE(B, o + 1), 'DW_FORM_block', S))
 
 
-def next_off(B, o, W, S):
+def next_off(B, o, W, S, E=None):
     return (o + 1 if (primary(B, o) == 1 or primary(B, o) == 3 or ext(B, o) in NOARGS) else
             UE(B, o + 1) if primary(B, o) == 2 else
-            o + 1 + W if ext(B, o) == 0x01 else
+            (o + 1 + W if E is None else pe_end(B, o + 1, E % 16, W)) if ext(B, o) == 0x01 else
             o + 2 if ext(B, o) == 0x02 else
             o + 3 if ext(B, o) == 0x03 else
             o + 5 if ext(B, o) == 0x04 else
